@@ -180,7 +180,7 @@ def make_user_code(defn, rng):
     dim = int(rng.integers(2, 4))
     pool = set()
     while len(pool) < nq + ns:
-        pool.add(tuple(int(x) for x in rng.integers(-3, 9, size=dim)))
+        pool.add(tuple(int(x) for x in rng.integers(-3, 9 if nq < 50 else 40, size=dim)))
     pool = list(pool)
     rng.shuffle(pool)
     # coordinates are only ever used as dictionary keys: a user lattice may put
@@ -406,6 +406,17 @@ def run(tier):
         r['id'] = len(recs)
         r['_cost'] = 4
         meta[r['id']] = ('user', json.dumps(d))
+        recs.append(r)
+    # generators whose weight passes 255 (counts kept in 8 bits wrap there)
+    for nq_, wx_ in ((256, 256), (300, 256), (257, 257)):
+        big = {'nq': nq_, 'stabs': [[[q, 'X'] for q in range(wx_)], [[q, 'Z'] for q in range(nq_)]]}
+        r = projected(lambda: make_user_code(big, rng), f'user-defined(weight {wx_} on {nq_} qubits',
+                      n_conv=3, n_synd=4)
+        if r is None:
+            continue
+        r['id'] = len(recs)
+        r['_cost'] = 600
+        meta[r['id']] = ('user', json.dumps({'nq': nq_, 'generators': f'X^{wx_} and Z^{nq_}'}))
         recs.append(r)
     n_user = len(defs)
 
